@@ -98,7 +98,8 @@ def generate(prop, rng, index, tier):
             if present and rng.random() < 0.7:
                 rd["missing"] = rng.choice(present)
             else:
-                rd["missing"] = rng.choice([-9999, _hex(-9999.5), _hex(1e20)]) if c["dtype"] == "float" else -77777
+                rd["missing"] = rng.choice([-9999, _hex(-9999.5), _hex(1e20)]) if c["dtype"] == "float" else \
+                    rng.choice([-77777, -77777, 10 ** 20, 2 ** 63, _hex(1e20)])      # (numpy's default fill value is 1e20)
         r = rng.random()
         if r < 0.3:
             rd["dtype"] = "Float"
